@@ -644,14 +644,14 @@ def run(ctx):
                                      "Limits": set(ctx.pick([1, 4, 16, 64], [1, 2, 4, 8, 16, 64])),
                                      "Limits3": set(ctx.pick([2, 16], [1, 4, 16, 64])),
                                      "Itemsizes": set(ctx.pick([1, 8], [1, 4, 8]))},
-                               ctx.pick(1, 2), ctx.pick(9000, 250000))
+                               ctx.pick(1, 2), ctx.pick(9000, 60000))
     nd_shapes = ctx.pick("{<<2, 3>>, <<4, 3>>, <<2, 2, 2>>}", "{<<2, 3>>, <<4, 3>>, <<4, 4>>, <<5, 4>>, <<2, 3, 2>>, <<3, 3, 3>>}")
     rrecs, t2, s2, m2 = rechunk_phase(ctx, {"Fam": "rechunk", "N": ctx.pick(6, 7), "Z": 3, "Shapes": TLA(nd_shapes),
                                             "ZShapes": TLA(ctx.pick("{<<2, 2>>, <<0, 3>>}",
                                                                     "{<<2, 2>>, <<1, 3>>, <<0, 3>>, <<3, 2>>, <<2, 0>>}")),
                                             "Limits": {1}, "Limits3": {1}, "Itemsizes": {1}},
-                                      {"1d": 10 ** 9, "nd": ctx.pick(1200, 14000), "zero": ctx.pick(700, 6000)}, ctx.pick(2, 3))
-    qrecs, m3 = random_phase(ctx, ctx.pick(1000, 15000))
+                                      {"1d": 10 ** 9, "nd": ctx.pick(1200, 9000), "zero": ctx.pick(700, 4000)}, ctx.pick(2, 3))
+    qrecs, m3 = random_phase(ctx, ctx.pick(1000, 10000))
     validate(ctx, nrecs + rrecs + qrecs, "all-recorded-calls")
     md = sum(1 for r in rrecs if r["fam"] == "plan" and len(r["steps"]) > 1)
     if m2 + md == 0 or m3 == 0:
@@ -688,11 +688,14 @@ def replay(ctx, obj):
             R = _rmod()
             _install_recorders()
             old, new = py_chunks(r["old"]), py_chunks(r["new"])
-            if r["fam"] == "o2n":
-                rec = dict(r, pieces=_jp(R._c23_o2n(old, new)), raised="")
-            else:
-                th, bsl = (r.get("settings") or [0, 0])
-                rec = dict(r, steps=[_jc(s) for s in R._c23_plan(old, new, 8, th or None, bsl or None)], raised="")
+            try:
+                if r["fam"] == "o2n":
+                    rec = dict(r, pieces=_jp(R._c23_o2n(old, new)), raised="")
+                else:
+                    th, bsl = (r.get("settings") or [0, 0])
+                    rec = dict(r, steps=[_jc(s) for s in R._c23_plan(old, new, 8, th or None, bsl or None)], raised="")
+            except Exception as ex:  # noqa: BLE001 - an exception is an observation
+                rec = dict(r, pieces=[], steps=[], raised=type(ex).__name__)
         n = _validate_quiet(ctx, [rec])
         print("observed:", {k: rec[k] for k in rec if k in ("obs", "pieces", "steps")}, "rejected:", n)
         return bool(n)
